@@ -304,6 +304,7 @@ class Ctx(object):
         self.solver_calls = 0
         self.assumed_models = set()  # names of library models used
         self.inlined = set()         # qualified names of functions interpreted
+        self.stash = {}              # harness objects created on this path (symbolic inputs, ghost state)
         self.truncated = 0           # >0: part of the input space of this path was cut off (bounded)
 
     # -- fresh symbols
